@@ -29,6 +29,7 @@ type coreGen struct {
 	nloop     int
 	nmatch    int
 	topCall   bool     // the next call generated is a statement of its own
+	gone      []string // variables first created inside a match arm or a call: unknown again afterwards
 	bound     []string // names bound by the patterns of the match arms around the code being generated
 }
 
@@ -131,6 +132,11 @@ func (g *coreGen) call(d int) Node {
 		v := g.intVar()
 		args[0] = map[string]any(cn("var", "n", v))
 		args[1] = map[string]any(cn("inc", "n", v, "op", g.pick("++", "--"), "post", g.r.Intn(2) == 0))
+		if g.r.Intn(2) == 0 {
+			// an argument written as an assignment: the parameter gets the assigned value, not the variable
+			args[0] = map[string]any(cn("asg", "n", v, "op", g.pick("=", "+="), "e", map[string]any(g.num(1+g.r.Intn(5)))))
+			args[1] = map[string]any(g.num(g.r.Intn(3)))
+		}
 	}
 	g.topCall = false
 	return cn("call", "f", f, "args", args)
@@ -365,6 +371,11 @@ func (g *coreGen) containerStmt(d int) Node {
 				body["b"] = append([]any{b[0], map[string]any(cn("expr", "e", map[string]any(w)))}, b[1:]...)
 			}
 		}
+		if it == "s0" && g.inRule && g.r.Intn(2) == 0 {
+			// a signal raised inside a for-in over a string leaves it like any other loop
+			sig := cn("block", "b", []any{map[string]any(cn(g.pick("next", "next", "exit", "break", "continue")))})
+			body["b"] = append(body["b"].([]any), map[string]any(cn("if", "c", map[string]any(g.boolExpr(1)), "th", map[string]any(sig), "el", map[string]any(cn("none")))))
+		}
 		return cn("forin", "v1", v1, "v2", v2, "n", it, "b", map[string]any(body))
 	case 10:
 		return ex(cn("asg", "n", "pv", "op", "=", "e", map[string]any(cn("mcall", "n", g.pick("r0", "r1"), "m", "pop", "args", []any{}))))
@@ -536,6 +547,13 @@ func (g *coreGen) matchExpr(d int) Node {
 					pre = append(pre, map[string]any(cn("print", "args", []any{map[string]any(cn("str", "v", "m2")), map[string]any(cn("var", "n", n))})))
 				}
 				body["b"] = append(pre, body["b"].([]any)...)
+			}
+			if g.r.Intn(2) == 0 {
+				// a variable first created in the arm (whatever patterns selected it) is gone when the arm is left
+				g.nmatch++
+				nv := fmt.Sprintf("nv%d", g.nmatch)
+				g.gone = append(g.gone, nv)
+				body["b"] = append([]any{map[string]any(cn("expr", "e", map[string]any(cn("asg", "n", nv, "op", "=", "e", map[string]any(g.num(1))))))}, body["b"].([]any)...)
 			}
 			c = cn("case", "pats", pats, "bk", "block", "b", map[string]any(body))
 			impure = true
@@ -884,6 +902,20 @@ func (g *coreGen) program() Node {
 		map[string]any(cn("if", "c", map[string]any(cn("var", "n", "cnt")), "th", map[string]any(cn("block", "b", []any{map[string]any(cn("print", "args", []any{map[string]any(cn("str", "v", "cnt")), map[string]any(cn("var", "n", "cnt"))}))})), "el", map[string]any(cn("none"))))}
 	if g.r.Intn(2) == 0 {
 		end = append([]any{map[string]any(g.stmt(2))}, end...)
+	}
+	// what was first created inside a finished match arm or call is unknown again (locals of the generated functions too)
+	for _, f := range fns {
+		fn := Node(f.(map[string]any))
+		if name := nstr(fn, "name"); len(name) == 2 && name[0] == 'f' {
+			g.gone = append(g.gone, "l0"+name, "l1"+name)
+		}
+	}
+	if len(g.gone) > 0 {
+		args := []any{map[string]any(cn("str", "v", "gone"))}
+		for _, nv := range g.gone {
+			args = append(args, map[string]any(cn("is", "e", map[string]any(cn("var", "n", nv)), "ty", "unknown")))
+		}
+		end = append(end, map[string]any(cn("print", "args", args)))
 	}
 	input := []any{}
 	for k := g.r.Intn(5); k > 0; k-- {
